@@ -61,7 +61,8 @@ def setup(ctx):
         pass
 
 
-TRAILING = {"none": [], "blank": [""], "blanks": ["   ", ""], "comment": ["# end of data"], "mixed": ["", "#c", " "]}
+TRAILING = {"none": [], "blank": [""], "blanks": ["   ", ""], "comment": ["# end of data"], "mixed": ["", "#c", " "],
+            "indented_comment": ["   # indented comment 1 2 3", "\t#x"]}
 AFTER = {"last": [], "P": ["P"], "O": ["O"], "X": ["X"], "PO": ["P", "O"], "XP": ["X", "P"]}
 EOLS = [("\n", True), ("\n", False), ("\r\n", True)]
 
@@ -86,7 +87,7 @@ def grid(tier):
     R = range(1, 7)
     for r in R:
         for c in R:
-            for trail in ("none", "blank", "blanks", "comment"):
+            for trail in ("none", "blank", "blanks", "comment", "indented_comment"):
                 for after in ("last", "P", "O", "X", "PO"):
                     for eol, fin in EOLS:
                         yield {"rows": [[cell(i, j) for j in range(c)] for i in range(r)], "trail": trail, "after": after,
@@ -136,7 +137,7 @@ def random_case(rng, tier):
     noise = {}
     for i in range(r):
         if rng.random() < dens:
-            noise[str(i)] = [rng.choice(["", "   ", "# comment 1 2 3", "#", "\t"]) for _ in range(rng.randint(1, 2))]
+            noise[str(i)] = [rng.choice(["", "   ", "# comment 1 2 3", "#", "\t", "   # padded comment 4 5", " \t # 7"]) for _ in range(rng.randint(1, 2))]
     sep = rng.choice([" ", "  ", "     ", "\t", [" ", "\t", "  \t "], ["  ", " "]])
     return {"rows": rows, "trail": rng.choice(list(TRAILING)), "after": rng.choice(list(AFTER)),
             "eol": rng.choice(["\n", "\n", "\r\n"]), "final": rng.random() < 0.7,
